@@ -86,6 +86,7 @@ func longUniverse(rnd *rand.Rand, focus string) (lockerCfg, []int) {
 		seeds = kept
 	}
 	lc.Seeds = seeds
+	lc.Reuse = rnd.Intn(3) != 0
 	l := build(lc)
 	shardOf := make([]int, len(seeds))
 	for k := range seeds {
@@ -246,7 +247,8 @@ func genLong(rnd *rand.Rand, focus string) (runCfg, []actT, string) {
 // runLongLists emits n long-lists schedules.
 func runLongLists(e *vh.Env, n int) (rounds, mismatches, deadlocked int) {
 	shapes := map[string]int{}
-	for i := 0; i < n; i++ {
+	bad := 0
+	for i := 0; i < n && bad < 25; i++ {
 		c, acts, shape := genLong(e.Rnd, e.Focus)
 		l := build(c.L)
 		rs, note := runSchedule(l, len(c.L.Seeds), replayChooser(acts), e.Rnd.Intn)
@@ -255,6 +257,9 @@ func runLongLists(e *vh.Env, n int) (rounds, mismatches, deadlocked int) {
 		}
 		if len(note) >= 8 && note[:8] == "deadlock" {
 			deadlocked++
+		}
+		if note != "" {
+			bad++
 		}
 		shapes[shape]++
 		rounds += len(rs)
